@@ -1,6 +1,32 @@
 META = {
-    "assumptions": ["allocation failure out of scope (--no-malloc-may-fail)"],
-    "outside": [],
+    "assumptions": [
+        "allocation failure out of scope (--no-malloc-may-fail)",
+        "buffer layer (getblk/ll_rw_block/brelse/mark_buffer_*/sync_blockdev/jbd2_journal_bmap) is the harness's restatement of "
+        "e2fsck/journal.c / debugfs/journal.c over byte arrays (no cache, dirty buffer written on release, bmap = identity); "
+        "device reads and writes succeed",
+        "journal geometry valid: version-2 journal superblock, 1 <= s_first < s_maxlen-1, s_first <= s_start < s_maxlen, "
+        "s_maxlen == j_total_len (what e2fsck_journal_load leaves behind; it does not check s_first / s_start)",
+        "no replayed block number falls inside the journal itself (journal and filesystem are separate arrays)",
+        "the log walk terminates (reference finds the end of the log within REF_MAXWALK header blocks) and no descriptor claims "
+        "as many data blocks as the log has blocks",
+        "composition: scan (end of log) + revoke_pass (records handed to the table) + revoke_table (table == 'revoked in this or a "
+        "later transaction') + replay_pass (replay given end of log and revoke predicate) imply the three-pass property; recover checks "
+        "the real three-pass glue end to end at a smaller bound with the table replaced by its specification",
+    ],
+    "outside": [
+        "checksum features (COMPAT_CHECKSUM v1, CSUM_V2, CSUM_V3 incl. 10/14/16-byte tags, async-commit checksum tolerance, "
+        "commit-time heuristic for stale blocks): not built",
+        "fast commit (j_fc_replay_callback == NULL), version-1 journal superblocks, external-journal device plumbing, jbd2_journal_bmap through an inode",
+        "block sizes >= 1024 (tag capacity per descriptor > 6), logs longer than 7 blocks, more than 2 revoke blocks x 3 records",
+        "e2fsck_journal_load / e2fsck_journal_release / recover_ext3_journal / e2fsck_run_ext3_journal and the debugfs equivalents "
+        "(journal superblock reset s_start = 0, needs_recovery flag): only the ordering core (order harness: data durable before "
+        "jbd2_journal_recover returns) is decided",
+        "the real revoke hash table inside the three-pass query (memory): replaced there by its specification, proven separately",
+        "the real hash_64 value (only its range is decided; revoke_table holds for every hash function)",
+        "I/O errors during recovery (a failed replay write is recorded in b_err, which nobody reads)",
+        "termination on cyclic logs: a ring of descriptor/revoke blocks that all carry the expected sequence and contain no commit "
+        "block makes do_one_pass() loop forever (same in the kernel); assumed away, reported as an observation",
+    ],
 }
 
 FS = ["--max-field-sensitivity-array-size", "128", "--object-bits", "10"]
@@ -124,4 +150,15 @@ HARNESSES = [
          unwind=3, cbmc_flags=FS, backends=["kissat", "default"], cap_quick=300,
          bound="as recover; filesystem device split into volatile and durable stores"),
 ]
-MANIFEST = {"text": "", "note": ""}
+MANIFEST = {
+    "text": "Bounded-exhaustive differential check of JBD2 journal recovery (recovery.c / revoke.c, e2fsck and debugfs flavours) against a "
+            "reference model that reads the bytes of the journal image: for every journal content within the stated bounds (every byte "
+            "of every block symbolic, symbolic log head and first sequence number, log wrap, 32/64-bit tags, escaped blocks, "
+            "uncommitted / wrongly-sequenced suffixes, revoke records) the end of the log, the revoke set and the replayed filesystem "
+            "bytes equal the reference's, blocks outside committed unrevoked transactions are untouched, the log restarts past the "
+            "first uncommitted id, and all replayed data is flushed before recovery returns. Decided per pass at the larger bound and "
+            "for the whole three-pass function at a smaller one.",
+    "note": "Trusted: CBMC's C semantics, the array-backed buffer layer, the reference model (jbd2_ref.h, written from the on-disk format). "
+            "Checksummed journals, fast commit, the journal-superblock reset and needs_recovery handling of the front-ends are outside. "
+            "Blocks are 32-64 bytes, logs <= 7 blocks; bounds per harness in the evidence.",
+}
